@@ -73,16 +73,28 @@ def spec(world, root, limit):
     return defects or {"ok"}
 
 
-def write_world(root_dir, world, outputs_of=None):
+def place(d, layout):
+    """directory of package `d` below the world's root. 'flat': siblings d0, d1, ...; 'groups': two parent directories holding packages with the
+    same base names (g0/p1 and g1/p1), so that one relative import string ('../p1') written in different packages means different directories;
+    'deep': every package at its own nesting depth"""
+    if layout == "groups":
+        return f"g{d % 2}/p{d // 2}"
+    if layout == "deep":
+        return "/".join(["n"] * (d % 3) + [f"d{d}"])
+    return f"d{d}"
+
+
+def write_world(root_dir, world, outputs_of=None, layout="flat"):
     for d, p in enumerate(world):
-        pd = os.path.join(root_dir, f"d{d}")
+        pd = os.path.join(root_dir, place(d, layout))
         os.makedirs(pd, exist_ok=True)
         man = [f"namespace: Ns{p['ns']}"]
         if p["imports"]:
             man.append("imports:")
-            man += [f"  - ../d{i}" for i in p["imports"]]
+            man += ["  - " + os.path.relpath(os.path.join(root_dir, place(i, layout)), pd) for i in p["imports"]]
         if outputs_of == d:
-            man += ["python:", "  outputDir: ../out_py", "json:", "  outputDir: ../out_json"]
+            up = os.path.relpath(root_dir, pd)
+            man += ["python:", f"  outputDir: {up}/out_py", "json:", f"  outputDir: {up}/out_json"]
         open(os.path.join(pd, "_package.yml"), "w").write("\n".join(man) + "\n")
         lines = [f"T{d}: int"]
         seen = set()
@@ -93,10 +105,10 @@ def write_world(root_dir, world, outputs_of=None):
         open(os.path.join(pd, "model.yml"), "w").write("\n".join(lines) + "\n")
 
 
-def cli_verdict(ybin, root_dir, root):
+def cli_verdict(ybin, root_dir, root, layout="flat"):
     import subprocess
     try:
-        rc, out, err = vlib.yardl(ybin, os.path.join(root_dir, f"d{root}"), "validate", timeout=10)
+        rc, out, err = vlib.yardl(ybin, os.path.join(root_dir, place(root, layout)), "validate", timeout=10)
     except subprocess.TimeoutExpired:
         return "hang", "yardl validate did not terminate within 10 s"
     text = err + out
@@ -175,8 +187,22 @@ def run(report, tier, seed):
             b = list(range(k + 1, 2 * k + 1))
             base = 2 * k + 1
             worlds.append([{"ns": 0, "imports": a}] + [{"ns": d, "imports": [b[i]]} for i, d in enumerate(a)] + [{"ns": d, "imports": [base]} for d in b] + [{"ns": base, "imports": []}])
+        # twins: under the 'groups' layout packages 2k and 2k+1 have the same base name in two parent directories, so an importer in g0 and an importer
+        # in g1 write the very same relative string for different directories (different namespaces: both must load; same namespace: a conflict)
+        twins = []
+        for ns3 in (3, 2):
+            twins.append([{"ns": 0, "imports": [2, 1]}, {"ns": 1, "imports": [3]}, {"ns": 2, "imports": []}, {"ns": ns3, "imports": []}])
+            twins.append([{"ns": 0, "imports": [1, 2]}, {"ns": 1, "imports": [3]}, {"ns": 2, "imports": []}, {"ns": ns3, "imports": []}])
+            twins.append([{"ns": 0, "imports": [2, 3]}, {"ns": 1, "imports": []}, {"ns": 2, "imports": [4]}, {"ns": 3, "imports": [5]}, {"ns": 4, "imports": []}, {"ns": 5 if ns3 == 3 else 4, "imports": []}])
+        for k, w in enumerate(twins):
+            _judge(report, sc, ybin, lean, w, 0, limit, 100000 + k, rng, seed, layout="groups")
+            if spec(w, 0, limit) == {"ok"}:
+                _usable(report, sc, ybin, w, 0, 100000 + k, seed, layout="groups")
         for idx, world in enumerate(worlds):
             _judge(report, sc, ybin, lean, world, 0, limit, idx, rng, seed)
+            # the same world laid out differently on disk: the verdict is about the graph, not about where the directories sit
+            if len(world) >= 3 and (idx % 4 == 0 or len(world) <= 5):
+                _judge(report, sc, ybin, lean, world, 0, limit, idx, rng, seed, layout="groups" if idx % 3 else "deep")
         # usable: every order of every import list of the diamond / shortcut worlds (all are accepted)
         k = 0
         for w in _usable_worlds(limit):
@@ -185,7 +211,7 @@ def run(report, tier, seed):
                 orders = rng.sample(orders, 12 if quick else 200)
             for combo in orders:
                 k += 1
-                _usable(report, sc, ybin, [{"ns": p["ns"], "imports": list(c)} for p, c in zip(w, combo)], 0, k, seed)
+                _usable(report, sc, ybin, [{"ns": p["ns"], "imports": list(c)} for p, c in zip(w, combo)], 0, k, seed, layout=("flat", "groups", "deep")[k % 3])
         # and random accepted worlds
         acc = [w for w in worlds if 3 <= len(w) <= 8 and spec(w, 0, limit) == {"ok"} and sum(len(p["imports"]) for p in w) >= 3]
         for w in (acc[:10] if quick else acc[:150]):
@@ -194,19 +220,21 @@ def run(report, tier, seed):
         lean.close()
 
 
-def _judge(report, sc, ybin, lean, world, root, limit, idx, rng, seed, permuted=False):
+def _judge(report, sc, ybin, lean, world, root, limit, idx, rng, seed, permuted=False, layout="flat"):
     m = lean.ask({"op": "collect", "world": world, "limit": limit, "root": root})
     model = m["verdict"]
     s = spec(world, root, limit)
-    d = sc.path(f"w{idx}{'p' if permuted else ''}")
-    write_world(d, world)
-    cli, text = cli_verdict(ybin, d, root)
+    d = sc.path(f"w{idx}{'p' if permuted else ''}{layout}")
+    write_world(d, world, layout=layout)
+    cli, text = cli_verdict(ybin, d, root, layout)
     shutil.rmtree(d, ignore_errors=True)
+    report.count(f"layout.{layout}")
     nontrivial = any(p["imports"] for p in world)
     report.case(distinct_key=json.dumps(world) if nontrivial else None,
                 sample={"world": world, "model": model, "spec": sorted(s), "cli": cli} if idx % 97 == 5 else None)
     report.count(f"verdict.{model}")
-    replay = {"world": world, "root": root, "limit": limit, "model": model, "spec": sorted(s), "cli": cli, "cli_output": text[-600:], "seed": seed}
+    replay = {"world": world, "root": root, "limit": limit, "model": model, "spec": sorted(s), "cli": cli, "cli_output": text[-600:], "seed": seed,
+              "directories": [place(x, layout) for x in range(len(world))]}
     if model != cli:
         report.violation(f"model-vs-cli:{model}:{cli}", dict(replay, theorem_or_correspondence="Imports.collect vs yardl validate"),
                          "the loader's verdict differs from the model of collectPackages")
@@ -238,16 +266,16 @@ def _judge(report, sc, ybin, lean, world, root, limit, idx, rng, seed, permuted=
             report.count(f"error-class.{sorted(s)[0]}-reported-as-{cli}")
 
 
-def _usable(report, sc, ybin, world, root, tag, seed):
+def _usable(report, sc, ybin, world, root, tag, seed, layout="flat"):
     """an accepted world is generated (Python) and the package imported: every importer can use the types of what it imports
     (write_world gives every package an alias to a type of each package it imports), whatever the order of the import lists"""
     import subprocess
-    d = sc.path(f"u{tag}")
-    write_world(d, world, outputs_of=root)
-    rc, out, err = vlib.yardl(ybin, os.path.join(d, f"d{root}"), "generate", timeout=30)
+    d = sc.path(f"u{tag}{layout}")
+    write_world(d, world, outputs_of=root, layout=layout)
+    rc, out, err = vlib.yardl(ybin, os.path.join(d, place(root, layout)), "generate", timeout=30)
     report.case(distinct_key=("usable", json.dumps(world), root))
     report.count("usable.generated")
-    replay = {"world": world, "root": root, "seed": seed, "what": "generate Python for an accepted world and import it"}
+    replay = {"world": world, "root": root, "seed": seed, "what": "generate Python for an accepted world and import it", "directories": [place(x, layout) for x in range(len(world))]}
     if rc != 0:
         report.violation("accepted-world-does-not-generate", dict(replay, output=(out + err)[-1200:]), "yardl validate accepts the import graph but generate fails")
         shutil.rmtree(d, ignore_errors=True)
